@@ -37,6 +37,7 @@ type ViewPred struct {
 
 type Preds struct {
 	Topics  ViewPred                       `json:"topics"`
+	Inact   ViewPred                       `json:"inactive"`
 	Topic   map[string]ViewPred            `json:"topic"`
 	Channel map[string]map[string]ViewPred `json:"channel"`
 	Nodes   ViewPred                       `json:"nodes"`
@@ -320,6 +321,17 @@ func (vc *viewCell) normalise(kind string, doc jmap) interface{} {
 			ts = append(ts, asStr(t))
 		}
 		return jmap{"topics": ts}
+	case "inactive":
+		// topic -> list of channel names, as nsqadmin lists them (a name listed twice stays listed twice)
+		ts := jmap{}
+		for t, cs := range asMap(doc["topics"]) {
+			l := []interface{}{}
+			for _, c := range asArr(cs) {
+				l = append(l, asStr(c))
+			}
+			ts[t] = l
+		}
+		return jmap{"topics": ts}
 	case "topic":
 		chans := jmap{}
 		for _, c := range asArr(doc["channels"]) {
@@ -527,6 +539,7 @@ type viewReq struct {
 func (vc *viewCell) requests(cs *ViewCase) []viewReq {
 	var rs []viewReq
 	rs = append(rs, viewReq{"topics", "topics", "/api/topics", cs.Pred.Topics})
+	rs = append(rs, viewReq{"inactive", "inactive", "/api/topics?inactive=true", cs.Pred.Inact})
 	rs = append(rs, viewReq{"nodes", "nodes", "/api/nodes", cs.Pred.Nodes})
 	for _, t := range sortedKeysP(cs.Pred.Topic) {
 		rs = append(rs, viewReq{"topic", "topic:" + t, "/api/topics/" + t, cs.Pred.Topic[t]})
